@@ -306,7 +306,13 @@ def run_component(name, pid, seed):
 
         def fn(rng):
             return (rng.choice(evs), rng.randint(0, 3))
-        return dict(items=dict(ImplicitDistribution(fn, 30, _seed=seed).items()),
+        # copies made of a not yet used distribution: each is a distribution with the same function, sample count and seed
+        import copy as _copy
+        base_ = ImplicitDistribution(fn, 30, _seed=seed)
+        twins_ = [_copy.copy(base_), _copy.copy(base_)]
+        drawn_ = [[d_.sample() for _ in range(3)] for d_ in [base_] + twins_]
+        return dict(copies_agree=(drawn_[0] == drawn_[1] == drawn_[2]), copies_first=drawn_[0],
+                    items=dict(ImplicitDistribution(fn, 30, _seed=seed).items()),
                     exp=ImplicitDistribution(fn, 30, _seed=seed).expectation(lambda e: e[1]),
                     marg=dict(ImplicitDistribution(fn, 30, _seed=seed).marginalize(lambda e: e[0]).items()),
                     cond=dict(ImplicitDistribution(fn, 30, _seed=seed).condition(lambda e: e[1] >= 1).items()),
@@ -370,6 +376,9 @@ def run_case(case, rng):
         if isinstance(res, dict) and res.get("__order_independent__") is False:
             case.fail("result-depends-on-earlier-queries-on-the-same-object",
                       f"{comp}({pid}, seed={seed}): a query answered differently on a used and on a fresh semi-MDP", **facts)
+        if isinstance(res, dict) and res.get("copies_agree") is False:
+            case.fail("equally-seeded-copies-of-an-unused-distribution-draw-different-samples",
+                      f"{comp}({pid}, seed={seed}): copy.copy of an unsampled ImplicitDistribution", **facts)
         m_ = problem(pid)["mdp"]
         now = {s_: tuple(v) for s_, v in m_.action_lists.items()}
         if now != m_.action_snapshot:
